@@ -27,17 +27,31 @@ def reconf(ck, binary, tier, pid):
     keep = SUBSETS[pid]
     hs = []
     for h in sorted(g.lines, key=lambda h: h["run"]):
-        st = [s for s in h["steps"] if s["op"] == "set" or s["req"] in keep]
+        # every third history reconfigures the long-lived server by replacing its watched configuration FILE (limits and the list
+        # of namespace names can be written there; the content of a namespace cannot, so it stays "plain" in those histories)
+        viafile = h["run"] % 3 == 0
+        st = []
+        for s in h["steps"]:
+            if viafile:
+                if s["op"] == "set" and s["key"] == "content":
+                    continue
+                s = dict(s, content="plain")
+            if s["op"] == "set" or s["req"] in keep:
+                st.append(s)
         if any(s["op"] == "req" for s in st):
-            hs.append({"run": h["run"], "steps": st})
+            hs.append({"run": h["run"], "steps": st, "file": viafile})
     if not hs:
         raise Inconclusive("Reconf.tla generated no histories")
     recs = {x["h"]: x for x in run_harness(binary, "reconf", {"histories": hs}, shards=8)}
-    nreq = after = 0
+    nreq = after = viafile = 0
     for i, h in enumerate(hs):
         ob = recs.get(i)
         if ob is None:
             raise Inconclusive("reconfiguration history %d not replayed" % i)
+        if ob.get("noreload"):
+            raise Inconclusive("the configuration file change of history %d (step %d) was not picked up within 15 s" % (h["run"], ob["step"]))
+        if ob.get("file"):
+            viafile += 1
         nreq += ob["requests"]
         after += ob["after_change"]
         ck.evaluations += ob["requests"]
@@ -49,5 +63,6 @@ def reconf(ck, binary, tier, pid):
     ck.traces += len(hs)
     ck.extra["reconfiguration_histories"] = len(hs)
     ck.extra["requests_after_a_configuration_change"] = after
+    ck.extra["histories_reconfigured_through_the_watched_file"] = viafile
     if after == 0:
         raise Inconclusive("no request followed a configuration change")
